@@ -237,13 +237,19 @@ def _deselect_others_with_mark(
 
 def select_tasks_by_marks_and_expressions(session: Session, dag: nx.DiGraph) -> None:
     """Modify the tasks which are executed with expressions and markers."""
-    remaining = select_by_keyword(session, dag)
-    if remaining is not None:
+    # Evaluate both selections before any task is deselected. Deselecting attaches
+    # ``skip`` marks which must not be visible to the marker expression.
+    remaining_by_keyword = select_by_keyword(session, dag)
+    remaining_by_mark = select_by_mark(session, dag)
+    if remaining_by_keyword is not None:
         _deselect_others_with_mark(
-            session, remaining, Mark("skip", (), {"reason": "Deselected by keyword."})
+            session,
+            remaining_by_keyword,
+            Mark("skip", (), {"reason": "Deselected by keyword."}),
         )
-    remaining = select_by_mark(session, dag)
-    if remaining is not None:
+    if remaining_by_mark is not None:
         _deselect_others_with_mark(
-            session, remaining, Mark("skip", (), {"reason": "Deselected by mark."})
+            session,
+            remaining_by_mark,
+            Mark("skip", (), {"reason": "Deselected by mark."}),
         )
